@@ -17,8 +17,15 @@
 (*   BExtend(inc)  a new block on the tip;  BDisconnect  the tip is        *)
 (*          reorged out (only while the reorg stays within the safety      *)
 (*          limit: hi - (Len(main)-1) < Safety, hi the highest tip ever)   *)
+(*   BExtendMany(k)  k blocks without watched transactions at once, k in   *)
+(*          LongGaps: outages of a day and more (lengths below and above   *)
+(*          chainntnfs.ReorgSafetyLimit = 144, the depth the package       *)
+(*          itself calls final) - generation / traces only, in model       *)
+(*          checking the same is k times BExtend within MaxGap             *)
 (* An OUTAGE is any number of backend steps (k >= 0, also k >= Safety)     *)
-(* whose notifications the notifier never sees, reorgs included.           *)
+(* whose notifications the notifier never sees, reorgs included.  The      *)
+(* LENGTH of an outage is independent of the DEPTH of the reorgs in it:    *)
+(* only the latter is bounded by the safety limit.                         *)
 (*                                                                         *)
 (* Dispatcher (bitcoind.go / btcd.go notificationDispatcher, one action    *)
 (* per call into the code under test):                                     *)
@@ -26,10 +33,10 @@
 (*                prev = best hash: the block is connected directly;       *)
 (*                otherwise HandleMissedBlocks(best, h) starts:            *)
 (*                GetBlockHash(best.Height) (fails if the active chain is  *)
-(*                shorter: CatchUp returns the error, nothing changes),    *)
-(*                common ancestor of the best block and the main-chain     *)
-(*                block of its height by walking both PrevBlock links      *)
-(*                (AncOf), then RewindChain to it                          *)
+(*                shorter: `fail`, the call returns the error and nothing  *)
+(*                changes), common ancestor of the best block and the      *)
+(*                main-chain block of its height by walking both PrevBlock *)
+(*                links (AncOf), then RewindChain to it                    *)
 (*   RewindStep   one DisconnectTip of RewindChain (the TxNotifier's       *)
 (*                mutex is taken per call: registrations may interleave)   *)
 (*   RewindDone   HandleMissedBlocks returns the new best block and the    *)
@@ -56,12 +63,19 @@
 (*   ViewIsBranch the notifier's view is always a branch of the store      *)
 (*   ClientMissedRight  GetClientMissedBlocks = the active chain after     *)
 (*                the common ancestor with the client's block              *)
+(*   FollowsActive*  the statement of C14 itself with the BACKEND's chain  *)
+(*                (snap) as the truth, not the notifier's view: once the   *)
+(*                notification is handled, a client holds a Confirmed /    *)
+(*                Spend not revoked by a reorg notice exactly for what is  *)
+(*                on the active chain, with the block of that chain, and   *)
+(*                no persisted hint lies above the real height there       *)
 (* Historical rescans are answered while the view is a prefix of the       *)
 (* active chain (OnMain); callers' hints are correct on both.              *)
 (***************************************************************************)
 EXTENDS TxNotifier
 
-CONSTANTS MaxGap     \* model bound: the backend runs at most MaxGap blocks ahead of the notifier
+CONSTANTS MaxGap,    \* model bound: the backend runs at most MaxGap blocks ahead of the notifier (BExtend)
+          LongGaps   \* lengths of the long outages of BExtendMany ({} in model checking)
 
 VARIABLES
   store,    \* backend: id -> [prev, h, inc]
@@ -69,13 +83,14 @@ VARIABLES
   hi,       \* backend: highest tip ever
   pc,       \* dispatcher: "idle" | "rewind" | "connect"
   target,   \* RewindChain's target height (the common ancestor)
+  fail,     \* HandleMissedBlocks could not look up the active chain at the best height
   newH,     \* height of the announced block
   queue,    \* blocks still to be connected for the notification being handled
   snap,     \* the active chain up to the announced block when the notification was handled
   ret,      \* what the last HandleMissedBlocks returned: [called, err, bh, bb, missed]
   cm        \* what the last GetClientMissedBlocks returned (sequence of ids)
 
-cuVars == <<store, main, hi, pc, target, newH, queue, snap, ret, cm>>
+cuVars == <<store, main, hi, pc, target, fail, newH, queue, snap, ret, cm>>
 allVars == <<vars, cuVars>>
 
 NoRet == [called |-> 0, err |-> 0, bh |-> 0, bb |-> 0, missed |-> <<>>]
@@ -94,7 +109,7 @@ AncOf(a, b) == IF a = b THEN store[a].h ELSE AncOf(store[a].prev, store[b].prev)
 CInit ==
   /\ Init
   /\ store = (0 :> Genesis) /\ main = <<>> /\ hi = 0
-  /\ pc = "idle" /\ target = 0 /\ newH = 0 /\ queue = <<>> /\ snap = <<>>
+  /\ pc = "idle" /\ target = 0 /\ fail = FALSE /\ newH = 0 /\ queue = <<>> /\ snap = <<>>
   /\ ret = NoRet /\ cm = <<>>
 
 \* a step that no client observes
@@ -112,7 +127,22 @@ BExtend(inc) ==
   /\ nextBlk' = nextBlk + 1
   /\ hi' = Max(hi, Len(main) + 1)
   /\ Silent
-  /\ UNCHANGED <<codeVars, maxTip, hc, hs, pc, target, newH, queue, snap, ret, cm>>
+  /\ UNCHANGED <<codeVars, maxTip, hc, hs, pc, target, fail, newH, queue, snap, ret, cm>>
+
+\* a long outage: k blocks that contain nothing watched
+NoInc == [o \in Outs |-> 0]
+BExtendMany(k) ==
+  /\ pc = "idle"
+  /\ Len(main) + k <= MaxLen /\ nextBlk + k - 1 <= MaxBlocks
+  /\ store' = store @@ [b \in nextBlk..(nextBlk + k - 1) |->
+                  [prev |-> IF b = nextBlk THEN MainId(Len(main)) ELSE b - 1,
+                   h    |-> Len(main) + 1 + (b - nextBlk),
+                   inc  |-> NoInc]]
+  /\ main' = main \o [j \in 1..k |-> nextBlk + j - 1]
+  /\ nextBlk' = nextBlk + k
+  /\ hi' = Max(hi, Len(main) + k)
+  /\ Silent
+  /\ UNCHANGED <<codeVars, maxTip, hc, hs, pc, target, fail, newH, queue, snap, ret, cm>>
 
 BDisconnect ==
   /\ pc # "rewind"
@@ -120,7 +150,7 @@ BDisconnect ==
   /\ hi - (Len(main) - 1) < Safety
   /\ main' = SubSeq(main, 1, Len(main) - 1)
   /\ Silent
-  /\ UNCHANGED <<codeVars, envVars, store, hi, pc, target, newH, queue, snap, ret, cm>>
+  /\ UNCHANGED <<codeVars, envVars, store, hi, pc, target, fail, newH, queue, snap, ret, cm>>
 
 -----------------------------------------------------------------------------
 (* the dispatcher *)
@@ -130,20 +160,17 @@ Deliver(h) ==
   /\ h \in 1..Len(main)
   /\ ~(h <= Tip /\ chain[h].id = main[h])
   /\ newH' = h
-  /\ cm' = <<>>
+  /\ cm' = <<>> /\ ret' = NoRet
+  /\ snap' = SubSeq(main, 1, h)
   /\ IF store[main[h]].prev = BestId
        THEN \* the next block of our chain: handleBlockConnected right away
-            /\ pc' = "connect" /\ queue' = <<main[h]>> /\ snap' = SubSeq(main, 1, h)
-            /\ ret' = NoRet /\ UNCHANGED target
-       ELSE IF Len(main) < Tip
-       THEN \* HandleMissedBlocks: GetBlockHash(best.Height) fails, the error is returned
-            /\ pc' = "idle" /\ queue' = <<>> /\ snap' = <<>>
-            /\ ret' = [called |-> 1, err |-> 1, bh |-> Tip, bb |-> BestId, missed |-> <<>>]
-            /\ UNCHANGED target
-       ELSE \* HandleMissedBlocks: common ancestor, then RewindChain
-            /\ pc' = "rewind" /\ queue' = <<>> /\ snap' = SubSeq(main, 1, h)
-            /\ target' = AncOf(BestId, MainId(Tip))
-            /\ ret' = NoRet
+            /\ pc' = "connect" /\ queue' = <<main[h]>>
+            /\ UNCHANGED <<target, fail>>
+       ELSE \* HandleMissedBlocks: GetBlockHash(best.Height) (fails if the active chain is
+            \* shorter), common ancestor, then RewindChain
+            /\ pc' = "rewind" /\ queue' = <<>>
+            /\ fail' = (Len(main) < Tip)
+            /\ target' = IF Len(main) < Tip THEN Tip ELSE AncOf(BestId, MainId(Tip))
   /\ Silent
   /\ UNCHANGED <<codeVars, envVars, store, main, hi>>
 
@@ -156,7 +183,7 @@ RewindStep ==
 \* ancestor makes it fail ("starting height is greater than ending height")
 RewindDone ==
   /\ pc = "rewind" /\ Tip <= target
-  /\ IF newH <= target
+  /\ IF fail \/ newH <= target
        THEN /\ pc' = "idle" /\ queue' = <<>> /\ snap' = <<>>
             /\ ret' = [called |-> 1, err |-> 1, bh |-> Tip, bb |-> BestId, missed |-> <<>>]
        ELSE /\ pc' = "connect"
@@ -165,6 +192,7 @@ RewindDone ==
                        missed |-> SubSeq(main, target + 1, newH - 1)]
             /\ UNCHANGED snap
   /\ Silent
+  /\ fail' = FALSE
   /\ UNCHANGED <<codeVars, envVars, store, main, hi, target, newH, cm>>
 
 ConnectNext ==
@@ -174,7 +202,7 @@ ConnectNext ==
   /\ maxTip' = Max(maxTip, Tip + 1)
   /\ queue' = Tail(queue)
   /\ pc' = IF Len(queue) = 1 THEN "idle" ELSE "connect"
-  /\ UNCHANGED <<nextBlk, hc, hs, store, main, hi, target, newH, snap, ret, cm>>
+  /\ UNCHANGED <<nextBlk, hc, hs, store, main, hi, target, fail, newH, snap, ret, cm>>
 
 \* GetClientMissedBlocks(client best = b, notifier best height = Tip, stores reorgs)
 ClientMissedOf(b) ==
@@ -184,7 +212,7 @@ ClientMissed(b) ==
   /\ b \in DOMAIN store /\ store[b].h <= Tip
   /\ cm' = ClientMissedOf(b)
   /\ Silent
-  /\ UNCHANGED <<codeVars, envVars, store, main, hi, pc, target, newH, queue, snap, ret>>
+  /\ UNCHANGED <<codeVars, envVars, store, main, hi, pc, target, fail, newH, queue, snap, ret>>
 
 -----------------------------------------------------------------------------
 (* the clients of the TxNotifier (actions of TxNotifier, the catch-up state untouched) *)
@@ -204,6 +232,7 @@ Clients ==
 
 CNext ==
   \/ \E inc \in Incl : BExtend(inc)
+  \/ \E k \in LongGaps : BExtendMany(k)
   \/ BDisconnect
   \/ \E h \in 1..Len(main) : Deliver(h)
   \/ RewindStep
@@ -237,7 +266,26 @@ Fork(b) == LET S == {k \in 0..store[b].h : BranchAt(b, k) = MainId(k)} IN
 ClientMissedRight == (pc = "idle" /\ OnMain) => \A b \in DOMAIN store : store[b].h <= Tip =>
   ClientMissedOf(b) = SubSeq(main, Fork(b) + 1, Tip)
 \* ... and so does the rewind of HandleMissedBlocks
-TargetIsFork == pc = "rewind" => target = Fork(BestId) \/ Tip <= target
+TargetIsFork == (pc = "rewind" /\ ~fail) => target = Fork(BestId) \/ Tip <= target
+
+\* C14 with the backend's chain as the truth: `snap` is the active chain up to the announced
+\* block; the notification has been handled (pc = "idle") without error (snap # <<>>)
+SnapChain == [k \in 1..Len(snap) |-> [id |-> snap[k], inc |-> store[snap[k]].inc]]
+Settled   == pc = "idle" /\ snap # <<>>
+ConfsOnSnap(t) == IF ConfAtIn(SnapChain, t) = 0 THEN 0 ELSE Len(snap) - ConfAtIn(SnapChain, t) + 1
+FollowsActiveConf == Settled => \A i \in RegIds : regs[i].k = "conf" =>
+  /\ Believes(i) => /\ toldAt[i].h \in 1..Len(snap) /\ snap[toldAt[i].h] = toldAt[i].b
+                    /\ ConfAtIn(SnapChain, regs[i].t) = toldAt[i].h
+  /\ (Watching(i, "conf") /\ hc[regs[i].t] = NoR /\ ConfsOnSnap(regs[i].t) >= regs[i].n) => told[i]
+FollowsActiveSpend == Settled => \A i \in RegIds : regs[i].k = "spend" =>
+  /\ Believes(i) => /\ toldAt[i].h \in 1..Len(snap) /\ snap[toldAt[i].h] = toldAt[i].b
+                    /\ SpentAtIn(SnapChain, regs[i].t) = toldAt[i].h
+  /\ (Watching(i, "spend") /\ hs[regs[i].t] = NoR /\ SpentAtIn(SnapChain, regs[i].t) # 0) => told[i]
+FollowsActiveHints == Settled =>
+  /\ \A t \in ConfTargets : chint[t] # -1 =>
+        chint[t] <= (IF ConfAtIn(SnapChain, t) # 0 THEN ConfAtIn(SnapChain, t) ELSE Len(snap))
+  /\ \A o \in SpendTargets : shint[SKey(o)] # -1 =>
+        shint[SKey(o)] <= (IF SpentAtIn(SnapChain, o) # 0 THEN SpentAtIn(SnapChain, o) ELSE Len(snap))
 
 CTypeOK ==
   /\ pc \in {"idle", "rewind", "connect"}
